@@ -40,7 +40,19 @@ def parse_format(bs):
             j += 1
         if j >= len(s):
             raise AnalysisBroken('bad format string %r' % s)
-        out.append(('conv', s[j], s[i + 1:j - len(mod)], mod))
+        spec = s[i + 1:j - len(mod)]
+        if '*' in spec:
+            # a width / precision taken from the argument list: one pseudo conversion per '*' (it consumes an int argument and prints
+            # nothing) in front of the conversion, which learns the value through the shared cell when conv_max_len sees the argument
+            cell = {}
+            before, _dot, after = spec.partition('.')
+            if '*' in before:
+                out.append(('conv', '*', cell, 'w'))
+            if '*' in after:
+                out.append(('conv', '*', cell, 'p'))
+            out.append(('conv', s[j], spec, mod, cell))
+        else:
+            out.append(('conv', s[j], spec, mod))
         i = j + 1
     if lit:
         out.append(('lit', lit))
@@ -58,7 +70,11 @@ def _width(spec):
 
 
 def conv_min_len(conv):
-    _k, ch, spec, _mod = conv
+    if conv[1] == '*':
+        return 0
+    _k, ch, spec, _mod = conv[:4]
+    if '*' in spec:
+        return 0
     if ch in 'diuxXo':
         return max(1, _width(spec))
     if ch == 'c':
@@ -68,12 +84,27 @@ def conv_min_len(conv):
 
 def conv_max_len(conv, u=None, arg=None):
     """Upper bound of the bytes one conversion can produce (None = unbounded / depends on a string)."""
-    _k, ch, spec, mod = conv
+    if conv[1] == '*':
+        conv[2][conv[3]] = const_val(arg) if arg is not None else None
+        return 0
+    _k, ch, spec, mod = conv[:4]
+    cell = conv[4] if len(conv) > 4 else {}
+    before, _dot, after = spec.partition('.')
+    if '*' in before:
+        if cell.get('w') is None:
+            return None
+        spec = before.replace('*', str(abs(cell['w']))) + _dot + after
+        before = spec.partition('.')[0]
     w = _width(spec)
     prec = None
     if '.' in spec:
         p = spec.split('.', 1)[1]
-        prec = int(p) if p.isdigit() else None
+        if '*' in p:
+            if cell.get('p') is None:
+                return None
+            prec = cell['p'] if cell['p'] >= 0 else None
+        else:
+            prec = int(p) if p.isdigit() else None
     if ch in 'di':
         bits = 64 if 'l' in mod or 'j' in mod or 'z' in mod else 32
         if arg is not None and const_val(arg) is not None:
